@@ -151,3 +151,40 @@ Proof.
   rewrite (flat_map_single (fun x : list pstep * value => x)), map_id in H. exact H.
 Qed.
 Print Assumptions C09_comparison_filter_from_text.
+
+(* The Boolean algebra of filters from the path text (BoolText.v).  C01_filter_retrieval expresses what a path returns through
+   nav1f, step by step; for a filter step nav1f is "the members (elements in index order, member values in ascending key order)
+   whose verdict is true" — a subsequence of the members.  Hence, for the filters written `[?(…||…)]`, `[?(…&&…)]`, `[?(!…)]`:
+   || selects the union, && the intersection (in member order: filtering twice), ! the complement among the members; the
+   negated basic queries (!@p, !$p, !=) are the negations of the plain ones. *)
+From JP Require Import Json KeyDefs FiltChain FiltAddr QueryAddr FiltChainAddr BoolText.
+From Coq Require Import List. Import ListNotations.
+Theorem C09_or_is_union_from_text : forall parse_float regex_match root d1 d2 lv m,
+  In m (nav1f parse_float regex_match root (FQ (d1 ++ d2)) lv) <->
+  In m (nav1f parse_float regex_match root (FQ d1) lv) \/ In m (nav1f parse_float regex_match root (FQ d2) lv).
+Proof. exact or_is_union. Qed.
+Print Assumptions C09_or_is_union_from_text.
+Theorem C09_and_is_intersection_from_text : forall parse_float regex_match root c1 c2 lv m,
+  In m (nav1f parse_float regex_match root (FQ [c1 ++ c2]) lv) <->
+  In m (nav1f parse_float regex_match root (FQ [c1]) lv) /\ In m (nav1f parse_float regex_match root (FQ [c2]) lv).
+Proof. exact and_is_intersection. Qed.
+Print Assumptions C09_and_is_intersection_from_text.
+Theorem C09_and_in_member_order_from_text : forall parse_float regex_match root c1 c2 lv,
+  nav1f parse_float regex_match root (FQ [c1 ++ c2]) lv =
+  filter (fun m => dnf_test parse_float regex_match root (kids (snd lv)) [c2] (snd m)) (nav1f parse_float regex_match root (FQ [c1]) lv).
+Proof. exact and_in_member_order. Qed.
+Theorem C09_not_is_complement_from_text : forall parse_float regex_match root i lv m, In m (members lv) ->
+  (In m (nav1f parse_float regex_match root (FN i) lv) <-> ~ In m (nav1f parse_float regex_match root (FE i) lv)).
+Proof. exact not_is_complement. Qed.
+Print Assumptions C09_not_is_complement_from_text.
+Theorem C09_negated_basic_queries_from_text : forall parse_float regex_match root vals v,
+  (forall i, bq_test parse_float regex_match root vals (BN i) v = negb (bq_test parse_float regex_match root vals (BE i) v)) /\
+  (forall j, bq_test parse_float regex_match root vals (BRN j) v = negb (bq_test parse_float regex_match root vals (BRE j) v)) /\
+  (forall i l, bq_test parse_float regex_match root vals (BL i true l) v = negb (bq_test parse_float regex_match root vals (BL i false l) v)) /\
+  (forall i j, bq_test parse_float regex_match root vals (BPQ i true j) v = negb (bq_test parse_float regex_match root vals (BPQ i false j) v)) /\
+  (forall i lit, bq_test parse_float regex_match root vals (BC i ONe lit) v = negb (bq_test parse_float regex_match root vals (BC i OEq lit) v)).
+Proof. exact negated_basic_queries. Qed.
+Theorem C09_selection_keeps_member_order_from_text : forall parse_float regex_match root x lv, is_filt x = true ->
+  exists h, nav1f parse_float regex_match root x lv = filter h (members lv).
+Proof. exact selection_is_subsequence. Qed.
+Print Assumptions C09_selection_keeps_member_order_from_text.
